@@ -82,6 +82,14 @@ MUTANTS = [
     ("C15", "end-time-as-start", "typhon/files/handlers/common.py", "        return cls(json_dict[\"path\"], times, json_dict[\"attr\"])", "        return cls(json_dict[\"path\"], [times[0], times[0]], json_dict[\"attr\"])"),
     ("C15", "silent-on-corrupt", "typhon/files/fileset.py", "            except Exception as err:\n                warnings.warn(", "            except Exception as err:\n                (lambda *a: None)("),
     ("C15", "partial-update-before-error", "typhon/files/fileset.py", "                    info_cache = {\n                        json_dict[\"path\"]: FileInfo.from_json_dict(json_dict)\n                        for json_dict in json_info_cache\n                    }\n                    self.info_cache.update(info_cache)", "                    for json_dict in json_info_cache:\n                        self.info_cache[json_dict[\"path\"]] = FileInfo.from_json_dict(json_dict)"),
+    ("C10", "pop-not-popleft", "typhon/files/fileset.py", "                if wait:\n                    yield worker_queue.popleft().result()", "                if wait:\n                    yield worker_queue.pop().result()"),
+    ("C10", "window-gt", "typhon/files/fileset.py", "                wait = len(worker_queue) >= workers", "                wait = len(worker_queue) > workers"),
+    ("C10", "no-tail-flush", "typhon/files/fileset.py", "            # Flush the rest:\n            while worker_queue:\n                yield worker_queue.popleft().result()", "            # Flush the rest:\n            while len(worker_queue) > 1:\n                yield worker_queue.popleft().result()"),
+    ("C10", "swallow-task-exception", "typhon/files/fileset.py", "        # Call the function:\n        return_value = func(*args, **kwargs)", "        # Call the function:\n        try:\n            return_value = func(*args, **kwargs)\n        except Exception:\n            return_value = None"),
+    ("C10", "as-completed", "typhon/files/fileset.py", "            return list(pool.map(\n                self._call_map_function, worker_args,\n            ))", "            from concurrent.futures import as_completed\n            return [f.result() for f in as_completed([pool.submit(self._call_map_function, a) for a in worker_args])]"),
+    ("C10", "align-evict-early", "typhon/files/fileset.py", "                if not secondary_usage[secondary_file]:\n                    del cache[secondary_file]", "                if secondary_usage[secondary_file] <= 1:\n                    cache.pop(secondary_file, None)"),
+    ("C10", "e2w-always", "typhon/files/fileset.py", "            except Exception as e:\n                if error_to_warning:\n                    msg = f\"[ERROR] Could not read the file(s):", "            except Exception as e:\n                if True:\n                    msg = f\"[ERROR] Could not read the file(s):"),
+    ("C10", "collect-keeps-none-drops-order", "typhon/files/fileset.py", "        results = self.map(**map_args)\n\n        # Tell the python interpreter explicitly to free up memory to improve\n        # performance (see https://stackoverflow.com/q/1316767/9144990):\n        gc.collect()", "        results = self.map(**map_args)[::-1]\n\n        gc.collect()"),
 ]
 
 
